@@ -22,7 +22,11 @@ def main(tier, seed):
         vfsrun.linemap_suite(chk, oracle, jobs, ['C19'], 4 if tier == 'quick' else 6, label='line ends')
     finally:
         oracle.close(); vfsk.W.cleanup()
+    # (c) which tokens a full-document / range request covers: ide::semantic_highlighting::highlight
+    from . import hlrange
+    hlrange.part(chk, tier, jobs)
     chk.assumptions += vfsrun.ASSUMPTIONS + [
+        'part c: highlight() runs on its real MIR over a chain of <= 3 (thorough 4) tokens with symbolic contiguous ranges (token length 1..3), a symbolic requested range, and a havoc\'d tagging closure; obligations: reported ranges are token ranges starting before the exclusive end of the request and not before the token containing its start, strictly increasing, and tagged tokens in the window are reported; the rowan token navigation (first_token / token_at_offset.right_biased / next_token / text_range) is modelled; every byte range of a fixture is replayed through ide::Analysis::syntax_highlight',
         'kernel claim: the highlight list is an arbitrary list of non-empty, increasing, non-overlapping single-line ranges on char boundaries with arbitrary tags '
         '(what ide::highlight produces for identifier tokens); WHICH identifiers are highlighted and how they are tagged needs the salsa database and is outside the claim',
         'token-type indices are decoded with the legend the server advertises (def_index! table in semantic_tokens.rs)']
@@ -32,6 +36,12 @@ def main(tier, seed):
 
 def replay(path):
     d = json.load(open(path))
+    if d.get('site') == 'highlight-range':
+        from mirsym import native
+        from . import hlrange
+        o = native.Oracle(native.build('oracle-ide'))
+        print(json.dumps(hlrange.native_scan(o), indent=1)); o.close()
+        return 0
     chk = Check('C19-replay', 'quick', 0)
     oracle = vfsrun.setup(chk)
     print(json.dumps(oracle.ask('semtok', doc=d['cex']['doc'], hls=d['cex']['hls'])))
